@@ -78,6 +78,10 @@ func c01(w *core.World, r *core.Report) {
 	ruleBatchPoisoned(w, r)
 	r.Rule("R10.16", "merging configured slot ranges is a union: a write on a key whose slot is configured in is not withheld (shared with C10)", 2)
 	ruleRangeMergeIsUnion(w, r)
+	// seed C01-14: with a slot filter configured, which stream commands are "configured out" is decided by the slot
+	// function; a KeyToSlot that is not HASH_SLOT drops writes of a whitelisted slot and forwards configured-out ones
+	// (R11.1-R11.5, shared with C11)
+	c11(w, r)
 }
 
 // ---------------------------------------------------------------- R01.1
